@@ -364,6 +364,8 @@ def read (bs : Bytes) : Option Module := do
   let mi ← magicInfo magic
   let hdrs := decodeN 30 decHdr 31 hb
   if mi.sanity && !(hdrs.all hdrTestOk) then none
+  -- `int8 volume`: a volume byte ≥ 0x80 loads as a negative volume (outside the abstract song): model silent
+  if hdrs.any (fun h => decide (h.vol ≥ 128)) then none
   let r ← if mi.digital then (takeN 4 r).map (·.2) else some r
   let len := (lr.getD 0 0).toNat
   let restart := (lr.getD 1 0).toNat
